@@ -1031,6 +1031,30 @@ class _SplatFold(ast.NodeTransformer):
             else:
                 args.append(a)
         node.args = args
+        # f(**dict.fromkeys(['a', 'b'], v)) is f(a=v, b=v); f(**{'a': x})
+        kws = []
+        for k in node.keywords:
+            v = k.value
+            if k.arg is None and isinstance(v, ast.Call) and \
+                    ast.unparse(v.func) == 'dict.fromkeys' and \
+                    len(v.args) == 2 and not v.keywords and \
+                    isinstance(v.args[0], (ast.List, ast.Tuple)) and all(
+                        isinstance(e, ast.Constant) and
+                        isinstance(e.value, str) and e.value.isidentifier()
+                        for e in v.args[0].elts) and \
+                    isinstance(v.args[1], ast.Constant):
+                kws.extend(ast.keyword(arg=e.value,
+                                       value=copy.deepcopy(v.args[1]))
+                           for e in v.args[0].elts)
+            elif k.arg is None and isinstance(v, ast.Dict) and all(
+                    isinstance(dk, ast.Constant) and
+                    isinstance(dk.value, str) and dk.value.isidentifier()
+                    for dk in v.keys):
+                kws.extend(ast.keyword(arg=dk.value, value=dv)
+                           for dk, dv in zip(v.keys, v.values))
+            else:
+                kws.append(k)
+        node.keywords = kws
         return node
 
 
@@ -2441,7 +2465,7 @@ class _Desugar(ast.NodeTransformer):
                     isinstance(st.target, ast.Tuple) and \
                     all(isinstance(e, ast.Name) for e in st.target.elts) and \
                     isinstance(st.iter, (ast.Tuple, ast.List)) and \
-                    1 <= len(st.iter.elts) <= 6 and all(
+                    1 <= len(st.iter.elts) <= 24 and all(
                         isinstance(row, ast.Tuple) and
                         len(row.elts) == len(st.target.elts) and
                         all(isinstance(x, ast.Constant) or _simple_arg(x)
@@ -2468,7 +2492,7 @@ class _Desugar(ast.NodeTransformer):
                     all(isinstance(e, ast.Name)
                         for e in st.target.elts[:-1]) and \
                     isinstance(st.iter, (ast.Tuple, ast.List)) and \
-                    1 <= len(st.iter.elts) <= 8 and all(
+                    1 <= len(st.iter.elts) <= 24 and all(
                         isinstance(row, ast.Tuple) and
                         len(row.elts) >= len(st.target.elts) - 1 and
                         all(isinstance(x, ast.Constant) or _simple_arg(x)
